@@ -65,18 +65,24 @@ def sig(fl):
                 for p in sorted(ps):
                     x = _layered(eff[s], d, lab, p)
                     if o.get(p, "-") != x:
-                        if p.endswith("blocks"):
-                            k = "list-elements-blended-across-layers"
-                        elif s == "host-application-config" and o.get(p, "-") == "-":
+                        es = eff[s]
+                        ents = es["nodes"] if es["st"] == "parsed" else []
+                        hit = [en for en in ents if _matches(en["sel"], lab)][:1]
+                        layer_vals = {d.get(p, "-"), "-"} | ({es["cluster"].get(p, "-")} if ents or es["st"] == "parsed" else set()) \
+                            | {en["set"].get(p, "-") for en in ents}
+                        if p.endswith("blocks") and o.get(p, "-") not in layer_vals:
+                            k = "list-elements-blended-across-layers"      # delivered list is no layer's list
+                        elif s == "host-application-config" and o.get(p, "-") == "-" and hit and p not in hit[0]["set"]:
                             k = "hostapp-entry-without-applications-hides-cluster-wide"
-                        elif p == "totalNetworkBandwidth" and o.get(p) == "'0'":
+                        elif p == "totalNetworkBandwidth" and o.get(p) == "'0'" and hit and p not in hit[0]["set"]:
                             k = "unset-value-field-overrides-lower-layer"
                         else:
                             k = "other"
                         kinds.add(k)
                         first = first or (s, p)
         if first:
-            return "op=%s section=%s path=%s kind=%s" % (e.get("op"), first[0], first[1], "+".join(sorted(kinds)))
+            # (the path is in the replay file's explanation; keeping it out of the signature keeps the number of signatures small)
+            return "op=%s section=%s kind=%s" % (e.get("op"), first[0], "+".join(sorted(kinds)))
     except Exception as ex:      # a label only
         return "op=%s kind=unclassified(%s)" % (e.get("op"), type(ex).__name__)
     return "op=%s kind=unclassified" % e.get("op")
